@@ -174,6 +174,21 @@ CHECKS = [
         "note": "Pixel-size/reported-value changes need only be noticed on a size change in cells or a toggle; only "
                 "results obtained while queries were disabled must be discarded by enable_queries().",
     },
+    {
+        "property_id": "C06",
+        "technique": "property-based testing: captured draw() output executed on a terminal model with sentinel rows; reference size-validation rules",
+        "text": "Generated draws in both APIs (instrumented renderables incl. INDEFINITE streams; Block/Kitty/ITerm2 "
+                "images still and animated, every quirk identity; paddings, loops/repeat, cache, check_size, scroll, "
+                "hide_cursor, echo_input, TTY or not) on generated terminal sizes and initial cursor rows; the output is "
+                "replayed on the terminal model: at every flush and at the end the padded region must be where the "
+                "first frame was drawn, every other cell unchanged modulo unavoidable scrolling, cursor visible at "
+                "column 0 of the line below, attributes reset, no stacked earlier frames; the documented "
+                "size-validation rules are matched exactly with zero bytes written on rejection. A real-pty clause "
+                "confirms the in-memory capture equals the bytes on the pty master.",
+        "note": "Trusts vf.vt (incl. kitty placement accumulation / konsole replacement semantics); regions taller "
+                "than the terminal only get the reduced oracle (column 0, restoration); frame-clearing is judged only "
+                "on identities the style supports.",
+    },
 ]
 
 NOT_APPLICABLE = [
